@@ -531,7 +531,7 @@ func c06scenarios(res *report.Result) []schedrun.Scenario {
 		if b == 2 {
 			w = 4000
 		}
-		out = append(out, schedrun.Scenario{Name: p.Name, Mode: explore.Delay, Bound: b, MaxSteps: 400000, Weight: w})
+		out = append(out, schedrun.Scenario{Name: p.Name, Mode: explore.Delay, Bound: b, MaxSteps: 400000, Weight: w, Postpone: b > 0})
 	}
 	return out
 }
